@@ -68,7 +68,12 @@ class Check:
         self.extra['gate_files'] = len(coqio.require_closure(roots))
         if hits:
             self.broken.append('forbidden vernacular: ' + '; '.join(hits[:5]))
+        # the property's theorems, what the caller asks for, and every checker file of the property
+        # (so that a check also works on a tree where only part of the development has been built)
         tg = ['Props/%s.v' % self.cid] + list(targets or [])
+        for r in roots:
+            if r.startswith('Check/') and r not in tg:
+                tg.append(r)
         ok, out = coqio.build(tg)
         self.checker_cmds.append('make -C coq -j%d %s' % (common.NCPU, ' '.join(t[:-2] + '.vo' for t in tg)))
         if not ok:
